@@ -142,7 +142,7 @@ func randRep(r *Rng, t interface{}, depth int) interface{} {
 			keys = append(keys, k)
 		}
 		sort.Strings(keys)
-		switch k := r.Intn(6); {
+		switch k := r.Intn(7); {
 		case k == 0: // map[interface{}]interface{}
 			m := map[interface{}]interface{}{}
 			for _, kk := range keys {
@@ -160,6 +160,14 @@ func randRep(r *Rng, t interface{}, depth int) interface{} {
 			c, err := ucfg.NewFrom(x)
 			if err == nil {
 				return c
+			}
+			fallthrough
+		case k == 4 && depth > 0: // an attached child of another config, reused under a new key
+			holder, err := ucfg.NewFrom(map[string]interface{}{"held": x})
+			if err == nil {
+				if ch, err := holder.Child("held", -1); err == nil && ch != nil {
+					return ch
+				}
 			}
 			fallthrough
 		default:
